@@ -636,11 +636,14 @@ impl State {
                     self.dict.remove(i);
                 }
             }
-            let is_building_fun = match self.flow_stack[prev.fs_len..].last() {
-                Some(Flow::Fun { .. }) => true,
-                _ => false,
+            // an enclosing meta block with a structure open is assembling code, not running
+            // it: the result belongs into that code, where the block stands (the enum
+            // builder is the exception, it takes the value from the stack)
+            let is_assembling = match self.flow_stack[prev.fs_len..].last() {
+                None | Some(Flow::Enum { .. }) => false,
+                _ => true,
             };
-            if prev.mode != ContextMode::MetaEval || is_building_fun {
+            if prev.mode != ContextMode::MetaEval || is_assembling {
                 // emit meta-evaluation result
                 while self.data_stack.len() > self.ctx.ds_len {
                     let val = self.pop_data()?;
